@@ -63,7 +63,7 @@ theorem length_removeFirst (y : Block) (w : List Block) (h : y ∈ w) : (removeF
       · exact absurd rfl hne
       · simp only [List.length_cons]; have := ih h; omega
 
-theorem updateW_len (rs : List (Block × Block × Block)) : ∀ (w : List Block), (updateW w rs).length ≤ w.length + rs.length := by
+theorem updateW_len (rs : List (Block × Block × Block)) : ∀ (w : List Block), (updateW w rs).length ≤ w.length + 2 * rs.length := by
   induction rs with
   | nil => intro w; simp [updateW]
   | cons r rest ih =>
@@ -77,17 +77,13 @@ theorem updateW_len (rs : List (Block × Block × Block)) : ∀ (w : List Block)
       have := ih (removeFirst y w ++ [i, dd])
       simp only [List.length_append, List.length_cons, List.length_nil] at this ⊢
       omega
-    · split
-      · have := ih (w ++ [i])
-        simp only [List.length_append, List.length_cons, List.length_nil] at this ⊢
-        omega
-      · have := ih (w ++ [dd])
-        simp only [List.length_append, List.length_cons, List.length_nil] at this ⊢
-        omega
+    · have := ih (w ++ [i, dd])
+      simp only [List.length_append, List.length_cons, List.length_nil] at this ⊢
+      omega
 
 theorem refineByAlphabet_measure (d : Dfa) (a : Block) (ls : List Grapheme) :
     ∀ (p w : List Block),
-      slack (refineByAlphabet d a ls (p, w)).1 + (refineByAlphabet d a ls (p, w)).2.length ≤ slack p + w.length := by
+      2 * slack (refineByAlphabet d a ls (p, w)).1 + (refineByAlphabet d a ls (p, w)).2.length ≤ 2 * slack p + w.length := by
   induction ls with
   | nil => intro p w; simp [refineByAlphabet]
   | cons l rest ih =>
@@ -100,7 +96,7 @@ theorem refineByAlphabet_measure (d : Dfa) (a : Block) (ls : List Grapheme) :
 
 /-- the loop ends before the fuel does -/
 theorem refineLoop_some (d : Dfa) :
-    ∀ (fuel : Nat) (p w : List Block), slack p + w.length ≤ fuel → ∃ p', refineLoop d fuel p w = some p' := by
+    ∀ (fuel : Nat) (p w : List Block), 2 * slack p + w.length ≤ fuel → ∃ p', refineLoop d fuel p w = some p' := by
   intro fuel
   induction fuel with
   | zero =>
@@ -119,12 +115,13 @@ theorem refineLoop_some (d : Dfa) :
       simp only [List.length_cons] at h
       omega
 
-theorem slack_initial (d : Dfa) : slack (initialPartition d) + (initialPartition d).length ≤ minFuel d := by
+theorem slack_initial (d : Dfa) : 2 * slack (initialPartition d) + (initialPartition d).length ≤ minFuel d := by
   simp only [slack, initialPartition, List.map_cons, List.map_nil, List.sum_cons, List.sum_nil, List.length_cons,
     List.length_nil, minFuel]
   have h1 := List.length_filter_le (fun s => !d.isFinal s) (List.range d.nodes)
   have h2 := List.length_filter_le (fun s => d.isFinal s) (List.range d.nodes)
-  simp only [List.length_range] at h1 h2
+  have h3 := len_filter_split (fun s => d.isFinal s) (List.range d.nodes)
+  simp only [List.length_range] at h1 h2 h3
   omega
 
 /-- **termination** `minimizePartition` never runs out of fuel, for any automaton -/
